@@ -86,6 +86,8 @@ func attrAffinities() []namedAff {
 	return out
 }
 
+func boolp(b bool) *bool { return &b }
+
 type namedOwner struct {
 	name string
 	refs []metav1.OwnerReference
@@ -98,6 +100,9 @@ func attrOwners() []namedOwner {
 		{"daemonSet", []metav1.OwnerReference{{Kind: "DaemonSet", Name: "ds"}}},
 		{"jobThenDaemonSet", []metav1.OwnerReference{{Kind: "Job", Name: "j"}, {Kind: "DaemonSet", Name: "ds"}}},
 		{"daemonsetLowercase", []metav1.OwnerReference{{Kind: "daemonset", Name: "ds"}}},
+		{"daemonSetController", []metav1.OwnerReference{{Kind: "DaemonSet", Name: "ds", Controller: boolp(true)}}},
+		{"otherControllerPlusDaemonSet", []metav1.OwnerReference{{Kind: "Operator", Name: "op", Controller: boolp(true)}, {Kind: "DaemonSet", Name: "ds"}}},
+		{"daemonSetPlusOtherController", []metav1.OwnerReference{{Kind: "DaemonSet", Name: "ds", Controller: boolp(false)}, {Kind: "ReplicaSet", Name: "rs", Controller: boolp(true)}}},
 	}
 }
 
